@@ -213,8 +213,57 @@ func ruleRootPrefix(p *Program, r *Report) {
 		return
 	}
 	r.Fn(FnName(ilf))
-	roots := callsTo(ilf, frm)
-	if len(roots) == 0 {
+	// the root lookup: a call of findRootFromModule, or of a package-local helper that calls it and returns the
+	// prefixed path (resolution extracted into a function)
+	isRootExtract := func(fn *ssa.Function) func(ssa.Value) bool {
+		return func(y ssa.Value) bool {
+			if ex, ok := y.(*ssa.Extract); ok {
+				if c, ok := ex.Tuple.(*ssa.Call); ok && c.Call.StaticCallee() == frm {
+					return true
+				}
+			}
+			return false
+		}
+	}
+	concatIn := func(fn *ssa.Function, v ssa.Value) bool {
+		return DependsOn(v, func(x ssa.Value) bool {
+			bo, ok := x.(*ssa.BinOp)
+			if !ok || bo.Op != token.ADD {
+				return false
+			}
+			return DependsOn(bo.X, isRootExtract(fn))
+		})
+	}
+	helperPrefixes := func(h *ssa.Function) bool {
+		if h == nil || h.Pkg != ilf.Pkg || h.Blocks == nil || len(callsTo(h, frm)) == 0 {
+			return false
+		}
+		r.Fn(FnName(h))
+		found := false
+		ForEachInstr(h, func(ins ssa.Instruction) {
+			if ret, ok := ins.(*ssa.Return); ok && len(ret.Results) > 0 && concatIn(h, RetVal(ret, 0)) {
+				found = true
+			}
+		})
+		return found
+	}
+	var lookups []*ssa.Call
+	viaHelper := map[*ssa.Call]bool{}
+	ForEachInstr(ilf, func(ins ssa.Instruction) {
+		c, ok := ins.(*ssa.Call)
+		if !ok {
+			return
+		}
+		g := c.Call.StaticCallee()
+		switch {
+		case g == frm:
+			lookups = append(lookups, c)
+		case g != nil && g != fv && helperPrefixes(g):
+			lookups = append(lookups, c)
+			viaHelper[c] = true
+		}
+	})
+	if len(lookups) == 0 {
 		r.Viol("finds-root", "importLocalFile no longer asks findRootFromModule for the module root", ilf.Pos())
 		return
 	}
@@ -229,29 +278,19 @@ func ruleRootPrefix(p *Program, r *Report) {
 		r.Undecided("fromRoot", "no boolean parameter", ilf.Pos())
 		return
 	}
-	r.Check(!reachableWhen(ilf, fromRoot, false)[roots[0].Block()], "root-only-for-root-imports", "the root lookup happens only for root imports", "findRootFromModule is consulted for relative imports as well", roots[0].Pos())
+	r.Check(!reachableWhen(ilf, fromRoot, false)[lookups[0].Block()], "root-only-for-root-imports", "the root lookup happens only for root imports", "findRootFromModule is consulted for relative imports as well", lookups[0].Pos())
+	fromLookup := func(v ssa.Value) bool {
+		if ex, ok := v.(*ssa.Extract); ok {
+			return ex.Tuple == ssa.Value(lookups[0])
+		}
+		return v == ssa.Value(lookups[0])
+	}
 	for i, c := range callsTo(ilf, fv) {
 		arg := c.Call.Args[len(c.Call.Args)-1]
 		// the value read depends on the root found (through the phi of the fromRoot branch)
-		dep := DependsOn(arg, func(v ssa.Value) bool {
-			if ex, ok := v.(*ssa.Extract); ok {
-				return ex.Tuple == ssa.Value(roots[0])
-			}
-			return false
-		})
-		// and it is a concatenation root + "/" + …
-		concat := DependsOn(arg, func(v ssa.Value) bool {
-			bo, ok := v.(*ssa.BinOp)
-			if !ok || bo.Op != token.ADD {
-				return false
-			}
-			return DependsOn(bo.X, func(y ssa.Value) bool {
-				if ex, ok := y.(*ssa.Extract); ok {
-					return ex.Tuple == ssa.Value(roots[0])
-				}
-				return false
-			})
-		})
+		dep := DependsOn(arg, fromLookup)
+		// and it is a concatenation root + "/" + … (in importLocalFile, or inside the helper)
+		concat := viaHelper[lookups[0]] || concatIn(ilf, arg)
 		r.Check(dep && concat, fmt.Sprintf("read-under-root~%d", i+1), "the file read for a root import is rootPath + \"/\" + …", "for a root import the path handed to fileValue is not built by prefixing the module root returned by findRootFromModule: the import is resolved against something else (cwd / importer's directory)", c.Pos())
 	}
 }
@@ -372,31 +411,61 @@ func ruleRootCacheSoundness(p *Program, r *Report) {
 				r.Undecided(key, "unexpected StoreRoot signature", c.Pos())
 				continue
 			}
-			root := c.Call.Args[2]
-			ok := false
-			for d := c.Block(); d != nil && !ok; d = d.Idom() {
-				id := d.Idom()
-				if id == nil {
-					break
+			// judge(site, root): the site is dominated by the true branch of the sentinel test of that root value; when the
+			// root is a parameter of the enclosing function (a store extracted into a helper), every call site of that
+			// function is judged instead
+			var judge func(site *ssa.Call, root ssa.Value, depth int) bool
+			judge = func(site *ssa.Call, root ssa.Value, depth int) bool {
+				if prm, isParam := root.(*ssa.Parameter); isParam && depth < 3 {
+					h := prm.Parent()
+					idx := -1
+					for i, q := range h.Params {
+						if q == prm {
+							idx = i
+						}
+					}
+					var callers []*ssa.Call
+					all := true
+					if n := p.CG().Nodes[h]; n != nil {
+						for _, e := range n.In {
+							if cs, isCall := e.Site.(*ssa.Call); isCall && cs.Call.StaticCallee() == h {
+								callers = append(callers, cs)
+							} else {
+								all = false
+							}
+						}
+					}
+					if idx >= 0 && all && len(callers) > 0 {
+						for _, cs := range callers {
+							if !judge(cs, cs.Call.Args[idx], depth+1) {
+								return false
+							}
+						}
+						return true
+					}
 				}
-				iff, isIf := id.Instrs[len(id.Instrs)-1].(*ssa.If)
-				if !isIf || id.Succs[0] != d || len(d.Preds) != 1 {
-					continue
-				}
-				// the condition is exactly the bool result of an existence test (not a disjunction with something else)
-				// whose path argument contains root and the sentinel
-				var condCall ssa.Value = iff.Cond
-				if ex, isEx := iff.Cond.(*ssa.Extract); isEx {
-					condCall = ex.Tuple
-				}
-				func(x ssa.Value) bool {
-					fc, isCall := x.(*ssa.Call)
+				for d := site.Block(); d != nil; d = d.Idom() {
+					id := d.Idom()
+					if id == nil {
+						break
+					}
+					iff, isIf := id.Instrs[len(id.Instrs)-1].(*ssa.If)
+					if !isIf || id.Succs[0] != d || len(d.Preds) != 1 {
+						continue
+					}
+					// the condition is exactly the bool result of an existence test (not a disjunction with something
+					// else) whose path argument contains root and the sentinel
+					var condCall ssa.Value = iff.Cond
+					if ex, isEx := iff.Cond.(*ssa.Extract); isEx {
+						condCall = ex.Tuple
+					}
+					fc, isCall := condCall.(*ssa.Call)
 					if !isCall {
-						return false
+						continue
 					}
 					g := fc.Call.StaticCallee()
 					if g == nil || !(strings.Contains(g.Name(), "Exists") || g.Name() == "Stat") {
-						return false
+						continue
 					}
 					for _, a := range fc.Call.Args {
 						usesRoot := DependsOn(a, func(y ssa.Value) bool { return y == root })
@@ -405,12 +474,13 @@ func ruleRootCacheSoundness(p *Program, r *Report) {
 							return isK && k.Value != nil && k.Value.Kind() == constant.String && constant.StringVal(k.Value) == "go.mod"
 						})
 						if usesRoot && usesSentinel {
-							ok = true
+							return true
 						}
 					}
-					return false
-				}(condCall)
+				}
+				return false
 			}
+			ok := judge(c, c.Call.Args[2], 0)
 			r.Check(ok, key, "stores a root whose sentinel was just found", fmt.Sprintf("%s stores a module root in the root cache without having found the sentinel at that root: findRootFromModule answers from the cache first, so scripts in that directory resolve `//{/…}` imports against this root even when a nearer go.mod makes them part of another module", FnName(fn)), c.Pos())
 		}
 	}
